@@ -41,8 +41,25 @@ where
     Ok(None)
 }
 
+pub fn de_debug<T>(input: &[u8]) -> Result<String, String>
+where
+    T: for<'xml> xml::Deserialize<'xml> + std::fmt::Debug,
+{
+    let mut d = xml::Deserializer::new(input);
+    let v = T::deserialize(&mut d).map_err(|e| err_kind(&e).to_string())?;
+    d.expect_eof().map_err(|e| err_kind(&e).to_string())?;
+    Ok(format!("{v:?}"))
+}
+
 pub fn run(case: &Value) -> Value {
     match case["op"].as_str().unwrap() {
+        "xml_debug" => {
+            let input = hex(&case["doc"]);
+            match crate::gen_xml::debug_of(case["type"].as_str().unwrap(), &input) {
+                Ok(s) => json!({"out": format!("ok:{s}")}),
+                Err(e) => json!({"out": format!("err:{e}")}),
+            }
+        }
         "xml_reser" => {
             let input = hex(&case["doc"]);
             match crate::gen_xml::reser(case["type"].as_str().unwrap(), &input) {
